@@ -8,6 +8,7 @@ import (
 	"math"
 	"strconv"
 	"strings"
+	"unicode/utf8"
 )
 
 var NaN float64
@@ -488,7 +489,9 @@ func (parser *Parser) ParseExpression(depth int) (res Sexp, err error) {
 		}
 		return &SexpInt{Val: i}, nil
 	case TokenChar:
-		return &SexpChar{Val: rune(tok.str[0])}, nil
+		// the rune written, not the first byte of its UTF-8 text
+		r, _ := utf8.DecodeRuneInString(tok.str)
+		return &SexpChar{Val: r}, nil
 	case TokenString:
 		return &SexpStr{S: tok.str}, nil
 	case TokenBeginBacktickString:
